@@ -33,7 +33,7 @@ var TargetNames = []string{"F0", "F1", "(*S).M", "(*S).m", "G", "hw.g2", "own.g2
 
 //go:noinline
 func g2(a int) int {
-	if a > 1<<40 {
+	if a > 1<<39 {
 		return a*19 - 1
 	}
 	return a + 650
@@ -190,11 +190,12 @@ type World struct {
 	nRet    [2][NTargets]int
 	nWhen   [2][NTargets]int
 	og      func(int) int
+	og1     func(int) int
 }
 
 // NewWorld creates fresh builders.
 func NewWorld() *World {
-	w := &World{og: hw.OG}
+	w := &World{og: hw.OG, og1: hw.OF1}
 	w.B[0] = mocker.Create()
 	w.B[1] = mocker.Create()
 	return w
@@ -292,7 +293,11 @@ func (w *World) Do(op Op) (panicMsg string, panicked bool) {
 				h.unexported.Apply(func(a int) int { return a + add })
 			}
 		case KApplyO:
-			h.exported.Origin(&w.og).Apply(func(a int) int { return w.og(a) + 30000 })
+			if t == TF1 {
+				h.exported.Origin(&w.og1).Apply(func(a int) int { return bigStack(func() int { return w.og1(a) }) + 30000 })
+			} else {
+				h.exported.Origin(&w.og).Apply(func(a int) int { return bigStack(func() int { return w.og(a) }) + 30000 })
+			}
 		case KReturn:
 			v := 700 + w.nRet[op.B][t]
 			w.nRet[op.B][t]++
@@ -354,6 +359,30 @@ func Probe(t Target, a int) Obs {
 var ProbeArgs = []int{2, 1, 2, 1, 9}
 
 func pcOG() uintptr { return reflect.ValueOf(hw.OG).Pointer() }
+
+//go:noinline
+func growStack(n int) int {
+	var b [256]byte
+	b[n%256] = byte(n)
+	if n == 0 {
+		return int(b[0])
+	}
+	return growStack(n-1) + int(b[n%256])
+}
+
+// bigStack runs f with plenty of stack below it, so that an origin call never runs near the
+// stack guard (that behaviour is C03's known finding and must not leak into other properties).
+func bigStack(f func() int) int {
+	growStack(96)
+	return f()
+}
+
+// PlaceholderRanges are the extents of the origin placeholders (G's and F1's).
+func PlaceholderRanges() []vk.Range {
+	lo, hi := vk.FuncExtentFast(pcOG())
+	lo1, hi1 := vk.FuncExtentFast(reflect.ValueOf(hw.OF1).Pointer())
+	return []vk.Range{{Lo: lo, Hi: hi}, {Lo: lo1, Hi: hi1}}
+}
 
 // PlaceholderRange is the extent of G's origin placeholder.
 func PlaceholderRange() vk.Range {
